@@ -123,6 +123,17 @@ CLAIMED = {
    note="trusted: rational recovery, parsing of printed bin labels; var/std rounding judged with a 1e-9 relative bound harness-side before rational recovery",
    technique="TLA+ spec GBNanops model-checked with TLC + trace validation (Trace_GBHelpers) of real helper calls",
    ref="DESIGN.md section 6/C20"),
+ "C19": dict(
+   text="TLC enumerates every history of calls (12 operation classes) and caller writes through held results over the buffer model "
+        "(GBMemory: 4 caller inputs, logical codes/labels, 4 lazily filled caches with their fill order and sources; invariants "
+        "InputsIntact, GroupingIntact, Repeatable, CachesIntact; 4 negative configurations).  Real histories on one grouping object "
+        "(one replay per transition of TLC's dumped state graph, ordered pairs of the 54 concrete methods with a write through the "
+        "first result in between, every method x 15 value containers x 5 mask kinds, random walks) are validated step by step: "
+        "byte-level snapshots of every input, logical codes/labels and every filled cache against a fresh grouping on pristine "
+        "inputs, np.shares_memory between result and every buffer, bit-exact equality of each result with the fresh grouping's.",
+   note="trusted: snapshot / alias observation in gbverif/drivers/memory.py (reads pandas' block reference tracker to recognise copy-on-write protection); state accessors (group_ikey, ikey_count, result_index) are not written through",
+   technique="TLA+ spec GBMemory model-checked with TLC, state graph replayed into the real object, histories trace-validated (Trace_GBMemory)",
+   ref="DESIGN.md section 6/C19"),
 }
 REASONS = {}
 props = [json.loads(l) for l in open("/verif/properties.jsonl")]
